@@ -1,4 +1,4 @@
-"""Demonstrations of the defects F01..F20 against the real code (dynamic, scratch only; not a check).
+"""Demonstrations of the defects F01..F21 against the real code (dynamic, scratch only; not a check).
 usage: /venv/bin/python findings/repro_all.py [/path/to/repo]   -> prints PASS/FAIL per finding."""
 import os, sys, tempfile, shutil, traceback
 sys.path.insert(0, os.path.dirname(__file__))
@@ -335,6 +335,18 @@ def _():
         assert np.array_equal(np.load(d / 'w.npy'), ref)
     finally:
         shutil.rmtree(d)
+
+@case('F21 extract_waveforms: recording shorter than the window')
+def _():
+    from phylib.io.traces import extract_waveforms
+    arr = (np.arange(4 * 2).reshape(4, 2) + 1).astype(np.int16)
+    n, s_ = 10, 2
+    w = extract_waveforms(arr, [s_], [0, 1], n)[0]
+    ref = np.zeros((n, 2), dtype=arr.dtype)
+    for r in range(n):
+        if 0 <= s_ - n // 2 + r < len(arr):
+            ref[r] = arr[s_ - n // 2 + r]
+    assert np.array_equal(w, ref)
 
 for k, v in R.items():
     print('%-75s %s' % (k, v))
